@@ -58,6 +58,88 @@ def reorder(line, ctx, tabs):
     return ord_
 
 
+# ---------------------------------------------------------------- configured direction marks (conf.h dirmarks[])
+import os as _os
+import re as _re
+
+
+def _c_unescape(lit):
+    out = []
+    i = 0
+    while i < len(lit):
+        if lit[i] == "\\" and i + 1 < len(lit):
+            out.append({"t": "\t", "n": "\n", "\\": "\\", '"': '"', "'": "'"}.get(lit[i + 1], lit[i + 1]))
+            i += 2
+        else:
+            out.append(lit[i])
+            i += 1
+    return "".join(out)
+
+
+class Marks:
+    """dirmarks[] of the tree under test: (context, direction, nested group, pattern).  The patterns are configuration data written
+    in ERE; they are run here by Python's re (same leftmost / first-alternative / greedy discipline), not by the engine under test."""
+
+    def __init__(self, srcdir):
+        conf = open(_os.path.join(srcdir, "conf.h"), encoding="utf-8").read()
+        macros = {}
+        for m in _re.finditer(r'#define\s+(\w+)\s+"((?:[^"\\]|\\.)*)"', conf):
+            macros[m.group(1)] = _c_unescape(m.group(2))
+        blk = _re.search(r"dirmarks\[\]\s*=\s*\{(.*?)\n\};", conf, _re.S).group(1)
+        self.marks = []
+        for m in _re.finditer(r"\{\s*([+-]?\d+)\s*,\s*([+-]?\d+)\s*,\s*(\d+)\s*,\s*(.*?)\}\s*,\s*\n", blk + "\n", _re.S):
+            pat = ""
+            for tok in _re.finditer(r'"((?:[^"\\]|\\.)*)"|(\w+)', m.group(4)):
+                pat += _c_unescape(tok.group(1)) if tok.group(1) is not None else macros[tok.group(2)]
+            self.marks.append((int(m.group(1)), int(m.group(2)), int(m.group(3)), _re.compile(pat), pat))
+
+
+def reorder_marks(body, ctx, marks):
+    """visual index of every character of body (no terminator) under the documented procedure: scan left to right for the leftmost
+    mark of the current direction context; the matched span is a run of the mark's direction (reversed as a whole when the surrounding
+    direction is right-to-left, its inner group reversed when the mark's own direction is right-to-left); a mark with a nested group
+    is then scanned inside in its own direction; continue after the span."""
+    n = len(body)
+    ord_ = list(range(n))
+
+    def rev(b, e):
+        ord_[b:e] = ord_[b:e][::-1]
+
+    def fix(d, beg, end, depth=0):
+        while beg < end:
+            sub = body[beg:end]
+            best = None
+            for pos in range(len(sub)):
+                for mctx, mdir, grp, rx, _ in marks.marks:
+                    if (d < 0 and mctx > 0) or (d > 0 and mctx < 0):
+                        continue
+                    m = rx.match(sub, pos)
+                    if m and m.end() > m.start():
+                        best = (m, mdir, grp)
+                        break
+                if best:
+                    break
+            if not best:
+                return
+            m, mdir, grp = best
+            r_beg, r_end = beg + m.start(), beg + m.end()
+            if grp and m.start(grp) >= 0:
+                c_beg, c_end = beg + m.start(grp), beg + m.end(grp)
+            else:
+                c_beg, c_end = r_beg, r_end
+            if d < 0:
+                rev(r_beg, r_end)
+            if mdir < 0:
+                rev(c_beg, c_end)
+            if c_beg == r_beg:
+                c_beg += 1
+            if grp > 0 and depth < 50:
+                fix(mdir, c_beg, c_end, depth + 1)
+            beg = r_end
+    fix(ctx, 0, n)
+    return ord_
+
+
 # ---------------------------------------------------------------- Arabic presentation forms from the UCD
 FORMS = {}      # base code point -> {"isolated":cp, "initial":cp, "medial":cp, "final":cp}
 for cp in list(range(0xfb50, 0xfe00)) + list(range(0xfe70, 0xff00)):
